@@ -161,3 +161,38 @@ Theorem c04_inflight_window_model_refuted :
   /\ inflight_fast 512 20 wshift wjob3 = None /\ inflight_truth 512 20 wjob3 = Some 0.
 Proof. exact inflight_window_shift. Qed.
 Print Assumptions c04_inflight_window_model_refuted.
+
+(* ---------------------------------------------------------------- the message ordinal index (derived cache, class K3) *)
+(* appends never repair a misaligned index: it is refused by the count reader for ever *)
+Theorem c04_ord_misaligned_stays_rejected :
+  forall (recs : list N) (torn : N) (seqs : list N) (mr_last : ores N),
+  torn <> 0 -> ord_count (fold_left ord_append seqs (OFile recs torn)) mr_last = OErr.
+Proof. exact ord_append_never_repairs. Qed.
+Print Assumptions c04_ord_misaligned_stays_rejected.
+
+(* everything the count reader checks: alignment and the LAST record *)
+Theorem c04_ord_count_accepts :
+  forall (f : ofile) (mr_last : ores N) (n : N),
+  ord_count f mr_last = OSome n ->
+  exists recs last, f = OFile recs 0 /\ mr_last = OSome last /\ n = nlen recs /\ hd_error (rev recs) = Some last.
+Proof. exact ord_count_accepts. Qed.
+Print Assumptions c04_ord_count_accepts.
+
+(* on the projection of the truth stream both readers answer from truth *)
+Theorem c04_ord_projection_transparent :
+  forall (msgs : list N) (last : N),
+  hd_error (rev msgs) = Some last ->
+  ord_count (OFile msgs 0) (OSome last) = OSome (nlen msgs)
+  /\ forall k known, (forall m, In m msgs -> known m = true) -> 0 < k ->
+       ord_by_ordinal (OFile msgs 0) known k =
+       match nth_error msgs (N.to_nat (k - 1)) with Some m => OSome m | None => ONone end.
+Proof. exact ord_projection_transparent. Qed.
+Print Assumptions c04_ord_projection_transparent.
+
+(* K3 is not vacuous: a record lost in the middle is accepted (count 2 of 3, ordinal 2 = third message) *)
+Theorem c04_K3_changes_answer :
+  ord_count (OFile [1; 5] 0) (OSome 5) = OSome 2
+  /\ ord_by_ordinal (OFile [1; 5] 0) (fun _ => true) 2 = OSome 5
+  /\ nlen [1; 3; 5] = 3 /\ nth_error [1; 3; 5] 1 = Some 3.
+Proof. exact K3_changes_answer. Qed.
+Print Assumptions c04_K3_changes_answer.
